@@ -129,6 +129,13 @@ func (c *Cond) Wait() {
 func (c *Cond) Signal() {
 	s, t := simrt.Current()
 	if t == nil {
+		if sim := simrt.Cur(); sim != nil && len(c.waiters) > 0 {
+			// a goroutine the scheduler does not know (a runtime timer callback) wakes a simulated waiter
+			c.waiters[0].signalled = true
+			c.waiters = c.waiters[1:]
+			sim.Poke()
+			return
+		}
 		c.fallback().Signal()
 		return
 	}
@@ -145,6 +152,14 @@ func (c *Cond) Signal() {
 func (c *Cond) Broadcast() {
 	_, t := simrt.Current()
 	if t == nil {
+		if sim := simrt.Cur(); sim != nil && len(c.waiters) > 0 {
+			for _, w := range c.waiters {
+				w.signalled = true
+			}
+			c.waiters = nil
+			sim.Poke()
+			return
+		}
 		c.fallback().Broadcast()
 		return
 	}
